@@ -214,8 +214,12 @@ class Gen:
                 t += ".adj"
             return t
         fn_ok = not nofn and (self.feat.get("fn_under_diagonal", True) or not diagonal)
-        if x < 0.72 and fn_ok:
+        if x < 0.66 and fn_ok:
             return "%s(%s)" % (r.choice(["f", "f", "g"]), self.lit(pool))
+        if x < 0.72 and fn_ok:
+            # a scope function with a numeric literal next to the series / expression argument
+            arg = self.lit(pool) if r.random() < 0.5 or depth >= 2 else self.expr(idx, depth + 1, diagonal, nofn=not self.feat.get("nested_calls", True))
+            return "h(%s, %d)" % (arg, r.choice([2, 3]))
         if x < 0.86 and depth < 2 and fn_ok:
             inner = self.expr(idx, depth + 1, diagonal, nofn=not self.feat.get("nested_calls", True))
             return "f(%s)" % inner
@@ -235,6 +239,12 @@ class Gen:
             e = f"({e}) / {r.choice([2, -2, 3])}"
             if r.random() < 0.25 and self.feat.get("nested_division", True):
                 e = f"({e}) / {r.choice([2, 5])}"
+            elif r.random() < 0.25:
+                e = f"{e} * {r.choice([2, 3])}"  # a quotient times an integer literal
+                if r.random() < 0.5:
+                    e = f"({e}) / {r.choice([2, 5])}"
+        elif x < 0.36:
+            e = f"({e}) * {r.choice([2, 3, -2])}"
         if r.random() < 0.2:
             e = f"-({e})"
         return e
@@ -256,7 +266,7 @@ class Prop:
     probes = ["family_G", "family_T", "family_S", "compared", "value_nonzero", "internal_after_output", "product_requested",
               "hermitian_product", "marker_hermitian", "marker_antihermitian", "clause_diagonal", "clause_offdiagonal",
               "clause_lower", "fn_call", "fn_series_arg", "division", "ifexp", "start_one", "start_input", "start_none",
-              "two_block_optimized", "commuting_false", "offdiag_present", "program_rejected", "prelude_program", "hermitian_product_3", "linear_operator_mode", "family_F", "flags_clause_checked", "slice_request", "domain_float", "linear_operator_mode_generated", "eviction_observed",
+              "two_block_optimized", "commuting_false", "offdiag_present", "program_rejected", "prelude_program", "hermitian_product_3", "linear_operator_mode", "family_F", "flags_clause_checked", "slice_request", "domain_float", "linear_operator_mode_generated", "eviction_observed", "series_dict_reused",
               "recompute_after_eviction"]
     components_real = ["pymablock.algorithm_parsing (compiler, series_computation), pymablock.series, pymablock.algorithms, "
                        "block_diagonalize wiring of scope (family S)"]
@@ -335,6 +345,13 @@ class Prop:
             nb2 = r.choice([nb, nb, 1, 2, 3])  # the earlier computation may have another block structure
             case["prelude"] = {"src": src2, "nb": nb2,
                                "ops": self._schedule(r, inputs + names2 + products2, names2[-1:], nb2, ninf, cap, tier)[:8]}
+            x = r.random()
+            if x < 0.5:
+                # the caller keeps one series dictionary and runs the computation again after replacing the inputs
+                # (series_computation adds its series to the dictionary it is given and returns it)
+                case["prelude"].update(nb=nb, shared_series=True, iseed_shift=r.randrange(1, 1 << 20))
+                if x < 0.3:  # the very same algorithm, other input values
+                    case["prelude"].update(src=src, ops=self._schedule(r, inputs + names + products, outputs, nb, ninf, cap, tier)[:8])
         return case
 
     def gen_T(self, r, tier):
@@ -461,10 +478,13 @@ class Prop:
             if pre.get("nb"):
                 sub.update(nb=pre["nb"], flags=[bool(k % 2) for k in range(pre["nb"])])
             shared = {}  # the caller reuses one scope dictionary for both computations
-            out0 = self._execute_one(sub, clear=False, shared_scope=shared)
+            shared_series = {} if pre.get("shared_series") else None  # ... and possibly one series dictionary
+            if pre.get("shared_series"):
+                sub["inputs"] = {n: {**sp, "iseed": sp["iseed"] + pre["iseed_shift"], "tag": "~"} for n, sp in case["inputs"].items()}
+            out0 = self._execute_one(sub, clear=False, shared_scope=shared, shared_series=shared_series)
             if out0["violation"]:
                 return out0
-            out = self._execute_one(case, clear=True, shared_scope=shared)
+            out = self._execute_one(case, clear=True, shared_scope=shared, shared_series=shared_series)
         else:
             out = self._execute_one(case, clear=True)
         if out0 is not None:
@@ -473,7 +493,7 @@ class Prop:
             out["digest"] = hashlib.sha256((out0["digest"] + out["digest"]).encode()).hexdigest()
         return out
 
-    def _execute_one(self, case, clear=True, shared_scope=None):
+    def _execute_one(self, case, clear=True, shared_scope=None, shared_series=None):
         from pymablock import algorithms
         from pymablock.algorithm_parsing import _parse_algorithm, series_computation
         from pymablock.series import PENDING, BlockSeries, one, zero
@@ -537,7 +557,11 @@ class Prop:
                         return aslinop(out) if d_ is not v else out
                     return T.fun("g", v)
 
-                scope = {"f": f, "g": g, "flag": flag, "flags": list(case["flags"])}
+                def h(x, k, index):
+                    v = f(x, index)
+                    return zero if v is zero else v * int(k)
+
+                scope = {"f": f, "g": g, "h": h, "flag": flag, "flags": list(case["flags"])}
                 specs = case["inputs"]
                 if floats and case.get("linop_mask"):
                     # linear-operator mode for some blocks (what the implicit method uses), with a caller-supplied product
@@ -584,7 +608,14 @@ class Prop:
                     scope_arg = shared_scope
                 else:
                     scope_arg = dict(scope)
-                series, linop = series_computation(dict(compiled_inputs), algorithm=algo, scope=scope_arg, operator=matmul)
+                if shared_series is not None:
+                    shared_series.update(compiled_inputs)
+                    series_arg = shared_series
+                    if len(shared_series) > len(compiled_inputs):
+                        bump("series_dict_reused")
+                else:
+                    series_arg = dict(compiled_inputs)
+                series, linop = series_computation(series_arg, algorithm=algo, scope=scope_arg, operator=matmul)
             except Exception as e:
                 return self._out({"class": "compile-error", "detail": f"series_computation raised {type(e).__name__}: {e}"},
                                  events, counters, False)
@@ -848,7 +879,7 @@ class Prop:
                     elif absent:
                         tab[idx] = zero
                     else:
-                        gen = T.gen(f"{name}{list(idx)}")
+                        gen = T.gen(f"{name}{spec.get('tag', '')}{list(idx)}")
                         tab[idx] = gen + gen.adjoint() if (hermitian and i == j) else gen
             if hermitian:
                 for i in range(nb):
